@@ -15,6 +15,15 @@ CHECKS = {
         note="FD certifies 1e-6*D; rows where step sizes disagree are skipped and counted; UMNN judged with its declared quadrature tolerance; eval mode, float64",
         ref="DESIGN.md 4/C01",
     ),
+    "C02": dict(
+        technique="bounded-exhaustive product exploration (subject x config<=k deviations x parameter pattern x input-side and output-side deviation-bounded rows), both composition orders executed on the real code",
+        text="For every invertible transform, configuration (<=1 / <=2 deviations), parameter pattern (incl. exactly-zero and strongly non-uniform) and every row that puts one "
+        "coordinate on a cell of the input alphabet (x side) or of the output alphabet (y side: output knots, end-points of [bottom,top], tails), inverse(forward(x)) and "
+        "forward(inverse(y)) are executed; all numbers must be finite, the round trip must close within (1e-9 + declared constant) x measured conditioning (bit-exact for "
+        "permutations/squeeze), and the inverse log-det must be minus the forward log-det at inverse(y).",
+        note="conditioning from a finite-difference Jacobian at the point; declared constants: cubic quadratic_threshold/eps, UMNN bisection, Sigmoid clamp; at kinks either one-sided log-det is accepted",
+        ref="DESIGN.md 4/C02",
+    ),
     "C10": dict(
         technique="stateless exhaustive exploration of all operation histories up to a depth on the real objects (replay from the empty history) + explicit-state BFS with exact state hashing to the fixpoint; oracle = uncached twin rebuilt from state_dict after every observing step",
         text="All histories over a 12-letter (thorough: 14) operation alphabet up to depth 4 (thorough: 5, and 6 on a 9-letter alphabet) are executed on "
